@@ -131,6 +131,7 @@ type Runner struct {
 	drift   int
 	matched int
 	hcases  int
+	rpcMap  map[string]*RPC // specification message -> real rpc (asynchronous replay)
 	ops     map[int]bool
 }
 
